@@ -281,7 +281,15 @@ fn dump<'tcx>(tcx: TyCtxt<'tcx>, dir: &str) {
         }
         first = false;
         nbodies += 1;
-        dump_body(&mut cx, &mut out, ldid, dk, body);
+        dump_body(&mut cx, &mut out, ldid, dk, body, None);
+        if matches!(dk, DefKind::Fn | DefKind::AssocFn | DefKind::Closure) {
+            let proms = tcx.promoted_mir(did);
+            for (pi, pb) in proms.iter_enumerated() {
+                out.push(',');
+                nbodies += 1;
+                dump_body(&mut cx, &mut out, ldid, dk, pb, Some(pi.as_u32()));
+            }
+        }
     }
     out.push(']');
     out.push(',');
@@ -705,19 +713,24 @@ fn dump_body<'tcx>(
     ldid: LocalDefId,
     dk: DefKind,
     body: &Body<'tcx>,
+    promoted: Option<u32>,
 ) {
     let tcx = cx.tcx;
     let did = ldid.to_def_id();
     let tenv = TypingEnv::post_analysis(tcx, did);
     out.push('{');
     jkey(out, "id");
-    let p = cx.path(did);
+    let mut p = cx.path(did);
+    if let Some(pi) = promoted {
+        p.push_str(&format!("::{{promoted#{}}}", pi));
+    }
     jstr(out, &p);
     out.push(',');
     jkey(out, "kind");
     jstr(
         out,
         match dk {
+            _ if promoted.is_some() => "promoted",
             DefKind::Fn => "fn",
             DefKind::AssocFn => "assocfn",
             DefKind::Closure => "closure",
